@@ -244,6 +244,42 @@ def spec_trim(data, odd_size, square):
             T = T[:, k:k + r]
     return T
 
+ALL_METHODS = ['basex', 'daun', 'direct', 'hansenlaw', 'onion_bordas', 'onion_peeling', 'two_point', 'three_point',
+               'linbasex', 'rbasex']
+TOPTS = {'basex': dict(basis_dir=None, verbose=False), 'daun': dict(verbose=False), 'onion_peeling': dict(basis_dir=None),
+         'two_point': dict(basis_dir=None), 'three_point': dict(basis_dir=None), 'direct': dict(backend='python')}
+
+def run_history(hist):
+    """earlier abel.Transform calls of the process: (method, origin, center_options or None = default)"""
+    import abel
+    H = np.add.outer(np.arange(15.0), np.arange(15.0)) % 7 + 1
+    for method, origin, copts in hist:
+        kw = dict(method=method, origin=origin, transform_options=dict(TOPTS.get(method, {})))
+        if copts is not None:
+            kw['center_options'] = dict(copts)
+        try:
+            abel.Transform(H, **kw)
+        except Exception:       # a failing earlier call is part of the history as well
+            pass
+
+def transform_IM(IM, method, origin, copts):
+    """abel.Transform(IM, origin=origin[, center_options=copts]).IM and its reference: set_center of the
+    documented trimming of the float image with the options center_options resolves to"""
+    import abel
+    from abel.tools.center import set_center, find_origin
+    kw = dict(method=method, origin=origin, transform_options=dict(TOPTS.get(method, {})))
+    given = None if copts is None else dict(copts)
+    if given is not None:
+        kw['center_options'] = given
+    out = abel.Transform(IM, **kw).IM
+    o = dict(odd_size=True, square=False, crop='maintain_size', order=3, axes=(0, 1))
+    o.update(copts or {})
+    T = spec_trim(np.asarray(IM, dtype=float), o['odd_size'], o['square'])
+    org = find_origin(T, method=origin, axes=o['axes']) if isinstance(origin, str) else origin
+    ref = set_center(T, org, crop=o['crop'], axes=o['axes'], order=o['order'])
+    untouched = given is None or given == dict(copts)
+    return out, ref, untouched
+
 def whole_origin(v, n, order):
     """whole-pixel origin meant by the value v on an axis of length n"""
     if v is None:
@@ -326,6 +362,17 @@ def evaluate():
         msg = 'shape %%r, set_center(trimmed %%r image, origin %%r, order=%%d) has shape %%r%%s' %% (
             out.shape, T.shape, tuple(org), order, ref.shape,
             '' if out.shape != ref.shape else ', max difference %%.3g' %% float(np.abs(out - ref).max()))
+    elif clause == 'transform-state':
+        # the centring step of abel.Transform does not depend on earlier Transform calls of the process
+        run_history([(m_, o_ if isinstance(o_, str) else tuple(o_), c_) for m_, o_, c_ in P['history']])
+        org = P['method'] if isinstance(P['method'], str) else tuple(P['method'])
+        copts = P['center_options']
+        if copts is not None and 'axes' in copts and isinstance(copts['axes'], list):
+            copts['axes'] = tuple(copts['axes'])
+        out, ref, untouched = transform_IM(data, P['transform_method'], org, copts)
+        ok = out.shape == ref.shape and np.array_equal(out, ref) and untouched
+        msg = 'after %%d earlier Transform calls: Transform(...).IM has shape %%r, centring of the image gives %%r%%s' %% (
+            len(P['history']), out.shape, ref.shape, '' if untouched else '; the center_options dictionary was modified')
     elif clause in ('odd', 'square'):
         out = center_image(data, method=P['method'] if isinstance(P['method'], str) else tuple(P['method']),
                            odd_size=P['odd_size'], square=P['square'], crop=crop, axes=axes, order=order)
@@ -633,6 +680,57 @@ def search(ctx, rng, budget):
                     meth, odd, sq, crop, axes, order, None if out is None else out.shape, ref.shape),
                 data, (None, None), axes, crop, order, method=meth if isinstance(meth, str) else list(meth),
                 odd_size=odd, square=sq))
+    # ---- 6. the clauses observed through abel.Transform(origin=...).IM, in several process states ----------
+    #      fresh; after Transform calls of every method with default center_options; after calls with explicit
+    #      center_options.  The result must be the centring of the image (reference above) in every state.
+    CO = [None, None, None, dict(crop='valid_region'), dict(order=0), dict(square=True), dict(odd_size=False, axes=0),
+          dict(crop='maintain_data', order=1)]
+    tcases = []
+    for it in range(10 if budget <= 400 else 60):
+        n, m = (int(v) for v in rng.integers(5, 15, size=2))
+        if it % 3 == 0:
+            m = n
+        IM = rng.integers(1, 20, size=(n, m)).astype([np.float64, np.int64][rng.integers(2)])
+        u = rng.random()
+        if u < 0.5:
+            org = (int(rng.integers(0, n)), int(rng.integers(0, m - 1)) if m > 1 else 0)
+        elif u < 0.7:
+            org = (float(rng.uniform(0, n - 1)), float(rng.uniform(0, max(m - 2, 0))))
+        else:
+            org = ['com', 'convolution', 'image_center'][rng.integers(3)]
+        tcases.append(dict(IM=IM, tm=['two_point', 'hansenlaw', 'three_point', 'onion_peeling'][rng.integers(4)],
+                           org=org, co=CO[rng.integers(len(CO))]))
+    hist_default = [(mth, o, None) for mth in ALL_METHODS for o in ('none', 'image_center')]
+    hist_explicit = [(mth, 'image_center', co) for mth in ALL_METHODS
+                     for co in (dict(square=True), dict(crop='valid_region', order=0))]
+    history, fresh = [], {}
+    for stage, more in (('fresh', []), ('default-center_options', hist_default), ('explicit-center_options', hist_explicit)):
+        run_history(more)
+        history = history + more
+        for ci, c in enumerate(tcases):
+            n_eval += 1
+            distinct.add(('tstate', stage, c['tm'], c['org'] if isinstance(c['org'], str) else 'tuple',
+                          None if c['co'] is None else tuple(sorted(c['co'])), c['IM'].shape[0] == c['IM'].shape[1]))
+            try:
+                out, ref, untouched = transform_IM(c['IM'], c['tm'], c['org'], c['co'])
+                good = out.shape == ref.shape and np.array_equal(out, ref) and untouched
+            except Exception:       # noqa
+                good, out = False, None
+            if stage == 'fresh':
+                fresh[ci] = out
+            elif good and fresh.get(ci) is not None:
+                good = fresh[ci].shape == out.shape and np.array_equal(fresh[ci], out)
+            if not good:
+                co_json = None if c['co'] is None else {k: (list(v) if isinstance(v, tuple) else v) for k, v in c['co'].items()}
+                hits.append(mkhit('transform-state', 'C12:transform-state:%s:center_options=%s' % (
+                    stage, 'default' if c['co'] is None else ','.join(sorted(c['co']))),
+                    'abel.Transform(IM %r, method=%r, origin=%r%s).IM is not the centring of the image in the process state '
+                    '"%s" (%d earlier Transform calls)' % (c['IM'].shape, c['tm'], c['org'],
+                                                          '' if c['co'] is None else ', center_options=%r' % (c['co'],),
+                                                          stage, len(history)),
+                    c['IM'], (None, None), (0, 1), 'maintain_size', 0,
+                    method=c['org'] if isinstance(c['org'], str) else list(c['org']), transform_method=c['tm'],
+                    center_options=co_json, history=[[a, b, cc] for a, b, cc in history]))
     return hits, n_eval, len(distinct)
 
 
@@ -659,7 +757,8 @@ def run(ctx):
                         'origins, com, convolution): odd width, result = centring of the image without its right-hand column; (5) center_image '
                         'with every option (order 0..5, crop, axes, odd_size, square, explicit None / integer / negative / fractional '
                         'origins and com / convolution / image_center / gaussian) = set_center of the documented trimming with the '
-                        'same options. '
+                        'same options; (6) abel.Transform(origin=...).IM = centring of the image, evaluated in three process states '
+                        '(fresh / after Transform calls of all 10 methods with default center_options / with explicit ones). '
                         'distinct = (crop, axes, parities, order, dtype kind, sign pattern) resp. (crop, axes, order, '
                         'dtype, negative) resp. (flags, parities, aspect); correspondence cases counted in evaluations only',
                    samples=[dict(kind=c['kind'], shape=list(c['IM'].shape), origin=[jsonable(v) for v in c['origin']],
